@@ -413,7 +413,7 @@ def run(tier, seed):
     _dmf()
     fam = _structured(2)
     pairs = [[a, b] for i, a in enumerate(fam) for b in fam[i:]]
-    nrand = 6000 if thorough else 1500
+    nrand = 6000 if thorough else 3000
     rpairs = _random_pairs(rng, nrand)
 
     S.map("fidelity.symmetric_range", pairs + rpairs, nontrivial=lambda p: p[0] != p[1])
